@@ -5,27 +5,12 @@ V = os.path.dirname(os.path.dirname(os.path.abspath(__file__)))
 props = [json.loads(l) for l in open(os.path.join(V, "properties.jsonl"))]
 GOENV = "GOFLAGS=-mod=mod GOPROXY=off GOSUMDB=off GOTOOLCHAIN=local"
 
-# id -> (technique, level text, level note, design ref)
-CLAIMED = {
- "C01": ("TLC-generated transition relation of FSCore.tla replayed into mem.FS / keyvalue.FS(plain store), spec cross-validated against the os package",
-         "Bounded model checking of the namespace specification (FSCore.tla: os semantics on an abstract tree) with exhaustive conformance replay: every transition TLC finds (every reachable tree x every call of the alphabet incl. all 48 OpenFile flag sets) is executed on the real mem.FS and on keyvalue.FS over a plain store, comparing result and the full closure projection after every call; the same transitions are replayed into the Go os package so the specification itself is continuously validated against the ground truth the property names.",
-         "Assumes bounded alphabets generalise (2 names, depth 2-3, 1-2 perms, 2 contents); histories beyond TLC's BFS-shortest paths are sampled by the simulation stage only; state no public call reveals is invisible.", "DESIGN.md §6 C01"),
- "C03": ("TLC-generated transitions of FSCore.tla (incl. root-touching calls) replayed on mem/kvplain; well-formedness invariant evaluated on the closure projection after every step",
-         "The WF invariant (root is a directory; every stat-able path has a listed directory parent; listing, Stat and Open agree; no duplicates) is an invariant of the TLA+ model (checked by TLC in every state and on every successor) and is evaluated on the real file systems after every replayed transition, successful or failed, over the full closure of candidate paths rather than a listing walk.",
-         "Closure is bounded by the model's name alphabet and depth+1; termination is observed through a per-call watchdog.", "DESIGN.md §6 C03"),
- "C05": ("TLC-generated failing transitions of FSCore.tla replayed on every layer; error type, sentinel and path fields compared with the spec's (os-validated) expectation",
-         "Every failing transition of the bounded model (each operation x each failure branch of the specification) is executed on the real code and the error's concrete type, its errors.Is class and its path fields are compared with what FSCore.tla prescribes; the prescription is validated against the os package on the reference leg.",
-         "Op strings are not compared; OTHER-class errors (no sentinel in os) only need to be non-nil.", "DESIGN.md §6 C05"),
- "C02": ("TLC-generated transition relation of Handles.tla (os.File semantics, 2 handles on one file, all flag classes) and DirH.tla replayed into real handles of mem.FS / keyvalue.FS; spec cross-validated against *os.File",
-         "Bounded model checking of the handle specification with exhaustive conformance replay: every interleaving TLC finds of Open/Read/ReadAt/Write/WriteAt/Seek/Truncate/Stat/Close on two handles of one file (every access mode x append x truncate, buffer lengths 0..N, offsets -1..len+1, invalid whence) is executed on the real handles; returned bytes, counts, offsets of every open handle and the file contents (fresh ReadFile) are compared after every call, and the same transitions run against *os.File. TLC itself checks the property's clauses (read-only never writes, EOF rule, zero-filled gaps, failing calls change nothing) on every successor.",
-         "File length <= 2 (quick) / 3 (thorough), byte alphabet {0,1}; a third handle and longer files only through the thorough configuration; EOF timing tolerance as io.Reader allows.", "DESIGN.md §6 C02"),
- "C16": ("TLC-generated transition relation of DirH.tla (paged directory handles, by-name listings) replayed on every file system kind; page partition and Stat agreement checked by the harness",
-         "Every sequence of page sizes TLC enumerates (from {-1,0,1,2,3,N+1,10^6}, two independent handles, rewind, close) on directories with 0, 3 and 5 children is replayed on the real directory handles; each page must contain the model's number of entries, entries across pages must partition the children, io.EOF exactly when nothing remains, kinds and Info agree with Stat; by-name listings must be sorted and complete. The os package is replayed as reference.",
-         "Directories mutated between pages are excluded (as in the property); internal batch sizes beyond 5 children are covered only by the thorough tier's large-directory stage.", "DESIGN.md §6 C16"),
- "C17": ("TLC-generated transition relation of Handles.tla / DirH.tla incl. Close, calls after Close, Remove/Rename while handles are open, replayed on real handles",
-         "Every call of the handle alphabet on closed handles in every reachable model state, every interleaving of two handles (independence: a call on one never moves or invalidates the other, checked by TLC on the model and by offset projection on the code), and every history mixing Remove/Rename of the name with I/O on handles opened before it, then probing both names; ErrClosed is required exactly where os.File returns it (validated on the reference leg).",
-         "Zero-length transfers on closed handles are not required to fail (os.File itself returns (0,nil)); Sync/Chmod only required to fail after Close.", "DESIGN.md §6 C17"),
-}
+# lib/claims/*.json: id -> [technique, level text, level note, design ref]
+CLAIMED = {}
+import glob
+for f in sorted(glob.glob(os.path.join(V, "lib", "claims", "*.json"))):
+    for k, v in json.load(open(f)).items():
+        CLAIMED[k] = tuple(v)
 
 checks = []
 for p in props:
